@@ -38,7 +38,7 @@ PYV_LITS += ["3.8rc1", "3.9.1rc1", "3.8.1rc1", "3.9.1.dev0", "3.8.post1", "3.pos
 PYFV_LITS = [f"{m}.{z}" for m in ["2.7", "3.0", "3.7", "3.8", "3.9", "3.10", "3.12"] for z in MICROS] + ["3.7", "3.8", "3.9", "3.10", "2.7"] + ["3.9a1", "3.10.0rc1", "3.8.0b2"]
 REL_LITS = ["5.4", "5.4.0", "5.15.0", "6.0", "6.1", "10", "21.6.0", "6"]
 REL_NONVERSION_LITS = ["4.9.253-tegra", "5.15.0-91-generic"]  # real-world kernel releases: valid literals for == / != only
-PY_NONVERSION_LITS = ["3.8.0+", "unknown"]  # PEP 508 allows any string; == / != then compare strings (packaging does the same)
+PY_NONVERSION_LITS = ["3.8.0+", "3.9+abc", "unknown"]  # "3.9+abc": a local label is valid for == / != only  # PEP 508 allows any string; == / != then compare strings (packaging does the same)
 NONVERSION_LITS = REL_NONVERSION_LITS + PY_NONVERSION_LITS
 REL_VALUES = ["5.3", "5.4", "5.4.0", "5.4.1", "5.10.1", "5.15.0", "5.15.1", "6.0", "6.0.1", "6.1", "6.1.1", "9.9", "10", "10.0", "10.1", "21.6.0", "21.6.1", "22.0.0"]
 EXTRA_NAMES = ["foo", "bar", "Foo_Bar", "foo-bar", "baz"]
@@ -77,7 +77,7 @@ def atom(draw, classes):
         rev = True
     elif k == "A3":
         var = draw(st.sampled_from(["python_version", "python_version", "python_full_version", "python_full_version", "platform_release"]))
-        lits = {"python_version": PYV_LITS + PY_NONVERSION_LITS[:1], "python_full_version": PYFV_LITS + PY_NONVERSION_LITS, "platform_release": REL_LITS + REL_NONVERSION_LITS}[var]
+        lits = {"python_version": PYV_LITS + PY_NONVERSION_LITS[:2], "python_full_version": PYFV_LITS + PY_NONVERSION_LITS, "platform_release": REL_LITS + REL_NONVERSION_LITS}[var]
         val = draw(st.sampled_from(lits))
         op = draw(st.sampled_from(CMP_OPS + ["~=", "==*", "!=*"]))
         if val in NONVERSION_LITS:
